@@ -301,6 +301,80 @@ def _selfcheck_once(prop, tier, seed, n):
 
 
 # --------------------------------------------------------------------------
+# process-environment variants: the same worlds in a child interpreter started with another locale set-up
+# --------------------------------------------------------------------------
+ENV_VARIANTS = {
+    # the POSIX locale with Python's UTF-8 mode and locale coercion switched off: text-mode files default to ASCII
+    'locale-C-ascii': {'LC_ALL': 'C', 'LANG': 'C', 'PYTHONUTF8': '0', 'PYTHONCOERCECLOCALE': '0', 'PYTHONIOENCODING': 'utf-8'},
+}
+
+
+def env_worlds(prop, tier, seed, n):
+    """(child side) run the check's sweep (if it is small) or its first n seeded worlds; -> violations and counts"""
+    import locale
+    mod = load_check(prop)
+    core.begin_run() if not os.environ.get('VERIF_SCRATCH_RUN') else None
+    scns = []
+    if hasattr(mod, 'sweep') and getattr(mod, 'ENV_SWEEP', False):
+        scns = list(mod.sweep(tier))
+    for i in range(n):
+        ws = world_seed(seed, prop, tier, i)
+        scn = mod.generate(random.Random(ws), tier)
+        scn['_world'] = {'index': i, 'world_seed': str(ws)}
+        scns.append(scn)
+    viol, herr, fired = [], [], {}
+    for scn in scns:
+        out = run_one(mod, scn)
+        for k, v in out['fired'].items():
+            fired[k] = fired.get(k, 0) + v
+        for v in out['violations']:
+            if len(viol) < 40:
+                viol.append({'scenario': scn, 'violation': v, 'fp': out['fp']})
+        if out.get('harness_error') and len(herr) < 3:
+            herr.append(out['harness_error'][:500])
+    return {'worlds': len(scns), 'violations': viol, 'harness_errors': herr, 'encoding': locale.getpreferredencoding(False), 'fired': len(fired)}
+
+
+def start_env_variants(prop, tier, seed, mod):
+    """(parent side) start one child interpreter per environment variant; they run while the pool does the seeded worlds"""
+    procs = []
+    for name in getattr(mod, 'ENV_VARIANTS', ()):
+        env = dict(os.environ)
+        env.update(ENV_VARIANTS[name])
+        env['VERIF_NO_REEXEC'] = '1'
+        env['PYTHONHASHSEED'] = '0'
+        env['VERIF_ENV_ACTIVE'] = name
+        cmd = [sys.executable, '-B', '-m', 'verif', 'envworlds', prop, '--tier', tier, '--seed', str(seed), '--n', str(getattr(mod, 'ENV_N', 300))]
+        procs.append((name, subprocess.Popen(cmd, cwd=VERIF_DIR, env=env, stdout=subprocess.PIPE, stderr=subprocess.PIPE, text=True)))
+    return procs
+
+
+def collect_env_variants(procs):
+    """-> (list of {'scenario','violation','fp'} items tagged with the variant, stats, harness errors)"""
+    items, stats, herr = [], {}, []
+    for name, p in procs:
+        try:
+            out, err = p.communicate(timeout=900)
+        except subprocess.TimeoutExpired:
+            p.kill()
+            herr.append('environment variant %s: child timed out' % name)
+            continue
+        line = [l for l in out.splitlines() if l.startswith('ENVRES ')]
+        if p.returncode != 0 or not line:
+            herr.append('environment variant %s: child failed rc=%s %s' % (name, p.returncode, err[-800:]))
+            continue
+        res = json.loads(line[-1][7:])
+        stats[name] = {'worlds': res['worlds'], 'text_encoding': res['encoding'], 'violations': len(res['violations'])}
+        herr.extend('environment variant %s: %s' % (name, h) for h in res['harness_errors'])
+        for it in res['violations']:
+            it['scenario']['_env'] = name
+            it['violation'] = dict(it['violation'], key=vkey(it['violation']) + '|env:' + name)
+            it['violation'].setdefault('facts', {})['environment'] = name
+            items.append(it)
+    return items, stats, herr
+
+
+# --------------------------------------------------------------------------
 # known findings
 # --------------------------------------------------------------------------
 def load_findings():
@@ -336,8 +410,8 @@ def minimise(mod, scn, v, budget_s=30):
     t0 = REAL_MONO()
     best, bestv = scn, v
     size0 = mod.size(scn) if hasattr(mod, 'size') else None
-    if not hasattr(mod, 'shrink'):
-        return best, bestv, size0
+    if not hasattr(mod, 'shrink') or scn.get('_env'):
+        return best, bestv, size0        # (a world of another process environment is not re-run in this one)
     def cands(scn_):
         if scn_.get('debug'):
             c = dict(scn_)
@@ -360,15 +434,15 @@ def minimise(mod, scn, v, budget_s=30):
     return best, bestv, size0
 
 
-def write_replay(prop, mod, tier, seed, scn, v, size0=None):
-    out = run_one(mod, scn)
+def write_replay(prop, mod, tier, seed, scn, v, size0=None, fp=None):
+    out = {'fp': fp} if scn.get('_env') else run_one(mod, scn)
     d = os.path.join(OUT_DIR, 'replays')
     os.makedirs(d, exist_ok=True)
     body = {
         'format': 1, 'property': prop, 'engine': getattr(mod, 'ENGINE', ''), 'tier': tier, 'seed': seed,
         'world': scn.get('_world'), 'scenario': scn,
         'violation': {'clause': v['clause'], 'key': vkey(v), 'facts': v.get('facts', {}), 'message': v.get('message', '')},
-        'fingerprint': out['fp'],
+        'fingerprint': out['fp'], 'env': ENV_VARIANTS.get(scn.get('_env')) if scn.get('_env') else None, 'env_name': scn.get('_env'),
         'minimised_from': size0, 'minimised_to': mod.size(scn) if hasattr(mod, 'size') else None,
     }
     tag = hashlib.sha1(json.dumps([vkey(v), scn], sort_keys=True, default=str).encode()).hexdigest()[:12]
@@ -382,6 +456,15 @@ def replay(path):
     with open(path) as f:
         body = json.load(f)
     prop = body['property']
+    if body.get('env') and os.environ.get('VERIF_ENV_ACTIVE') != body.get('env_name'):
+        # the world belongs to another process environment: replay it in a child started with that environment
+        env = dict(os.environ)
+        env.update(body['env'])
+        env.update({'VERIF_NO_REEXEC': '1', 'PYTHONHASHSEED': '0', 'VERIF_ENV_ACTIVE': body.get('env_name') or 'x'})
+        p = subprocess.run([sys.executable, '-B', '-m', 'verif', 'replay', path], cwd=VERIF_DIR, env=env, capture_output=True, text=True, timeout=900)
+        sys.stdout.write(p.stdout)
+        sys.stderr.write(p.stderr[-2000:])
+        return p.returncode
     mod = load_check(prop)
     core.begin_run()        # same scratch path shape as in a check run (path lengths show up in byte counts)
     try:
@@ -391,7 +474,7 @@ def replay(path):
     if out.get('harness_error'):
         print('HARNESS-ERROR %s' % out['harness_error'])
         return 2
-    want = body['violation']['key']
+    want = body['violation']['key'].split('|env:')[0]
     hit = [v for v in out['violations'] if vkey(v) == want]
     if hit:
         same = (out['fp'] == body.get('fingerprint'))
@@ -429,6 +512,8 @@ def check(prop, tier, seed, budget_s=None):
 
     total = Agg()
     sweep_info = None
+    env_stats = {}
+    env_procs = []
     pool = make_pool()
     try:
         # 2. sweeps (complete over their stated finite set)
@@ -447,6 +532,10 @@ def check(prop, tier, seed, budget_s=None):
                           'stated_set': getattr(mod, 'SWEEP_SET', {}).get(tier, '')}
             total.merge(sw)
             print('sweep: %d worlds in %.1fs, %d violations' % (sw.worlds, REAL_MONO() - t0, len(sw.violations)), flush=True)
+
+        # 2b. the same kind of worlds in child interpreters started with another process environment (locale); they run
+        # alongside the seeded part
+        env_procs = start_env_variants(prop, tier, seed, mod)
 
         # 3. seeded worlds until the budget is used
         chunk = getattr(mod, 'CHUNK', 40)
@@ -467,6 +556,12 @@ def check(prop, tier, seed, budget_s=None):
                 total.merge(f.result())
         seeded_wall = REAL_MONO() - t0
         print('seeded: %d worlds total so far, %.1fs' % (total.worlds, seeded_wall), flush=True)
+        if env_procs:
+            items, env_stats, eh = collect_env_variants(env_procs)
+            harness_errors.extend(eh)
+            for it in items:
+                total.violations.append({'scenario': it['scenario'], 'violation': it['violation'], 'fp': it.get('fp')})
+            print('environment variants: %s' % json.dumps(env_stats, sort_keys=True), flush=True)
     except cf.process.BrokenProcessPool as e:
         harness_errors.append('worker died: %s' % e)
     finally:
@@ -493,7 +588,7 @@ def check(prop, tier, seed, budget_s=None):
             known_seen[kf2.get('id', kf2.get('what'))] = known_seen.get(kf2.get('id', kf2.get('what')), 0) + len(items)
             print('KNOWN-FINDING: property=%s %s [%s; %d worlds]' % (prop, kf2.get('what'), key, len(items)))
             continue
-        path = write_replay(prop, mod, tier, seed, scn, v2, size0)
+        path = write_replay(prop, mod, tier, seed, scn, v2, size0, fp=item.get('fp'))
         n_viol += 1
         reported.append({'key': key, 'clause': v2['clause'], 'message': v2.get('message', ''), 'facts': v2.get('facts', {}),
                          'worlds': len(items), 'replay': path})
@@ -527,6 +622,8 @@ def check(prop, tier, seed, budget_s=None):
         'harness_errors': len(harness_errors),
         'workers': WORKERS,
     }
+    if env_stats:
+        cov['process_environments'] = env_stats
     if total.schedules:
         cov['distinct_schedules'] = len(total.schedules)
     if sweep_info:
